@@ -97,7 +97,17 @@ impl FunctionExpression for ModFn {
             Some(value) if value.is_float() || value.is_integer() => match value {
                 Value::Float(v) if v.is_normal() => TypeDef::float().infallible(),
                 Value::Float(_) => TypeDef::float().fallible(),
-                Value::Integer(v) if v != 0 => TypeDef::integer().infallible(),
+                // the remainder has the kind of the dividend: `mod(0.1, 1)` is a float
+                Value::Integer(v) if v != 0 => {
+                    let value_def = self.value.type_def(state);
+                    if value_def.is_integer() {
+                        TypeDef::integer().infallible()
+                    } else if value_def.is_float() {
+                        TypeDef::float().infallible()
+                    } else {
+                        TypeDef::float().or_integer().infallible()
+                    }
+                }
                 Value::Integer(_) => TypeDef::integer().fallible(),
                 _ => TypeDef::float().or_integer().fallible(),
             },
